@@ -112,19 +112,24 @@ Section Model.
                 bind (output_loop x size n_out r) (fun rest => Ok (c ++ rest)))
     end.
 
-  (** [finalize_into_dirty]: digest and the (dirty) hasher left behind *)
-  Definition finalize_into_dirty (h : hasher) (n_out : nat) : res (list N * hasher) :=
+  (** first half of [finalize_into_dirty]: FINAL flag, position, [pad_with::<ZeroPadding>],
+      the final message block (state and buffer left behind) *)
+  Definition finalize_message (h : hasher) : res (state * bb) :=
     let s := h_state h in
     let s := St (st_t0 s) (N.lor (st_t1 s) T1_FLAG_FINAL) (st_x s) in
     let pos := bb_pos (h_buffer h) in
     match pad_with_zero (h_buffer h) with
     | None => Panic                                  (* .unwrap() *)
     | Some (buffer, final_block) =>
-      bind (process_block s final_block (N.of_nat pos)) (fun s =>
-        let size := N.to_nat (v_bits v / 8) in
-        bind (output_loop (st_x s) size n_out (seq 0 ((n_out + size - 1) / size))) (fun out =>
-          Ok (out, Hs s buffer)))
+      bind (process_block s final_block (N.of_nat pos)) (fun s => Ok (s, buffer))
     end.
+
+  (** [finalize_into_dirty]: digest and the (dirty) hasher left behind *)
+  Definition finalize_into_dirty (h : hasher) (n_out : nat) : res (list N * hasher) :=
+    bind (finalize_message h) (fun sb =>
+      let size := N.to_nat (v_bits v / 8) in
+      bind (output_loop (st_x (fst sb)) size n_out (seq 0 ((n_out + size - 1) / size))) (fun out =>
+        Ok (out, Hs (fst sb) (snd sb)))).
 
   Definition reset (h : hasher) (n_out : N) : res hasher := default n_out.
 
@@ -141,8 +146,11 @@ Section Model.
     | p :: r => bind (update h p) (fun h' => updates h' r)
     end.
 
-  Definition digest_pieces (n_out : nat) (pieces : list (list N)) : res (list N) :=
-    bind (default (N.of_nat n_out)) (fun h =>
+  (** the remaining calls on a hasher [h]: [update] per piece, then [finalize] *)
+  Definition finish_pieces (h : hasher) (n_out : nat) (pieces : list (list N)) : res (list N) :=
     bind (updates h pieces) (fun h =>
-    bind (finalize_into_dirty h n_out) (fun r => Ok (fst r)))).
+    bind (finalize_into_dirty h n_out) (fun r => Ok (fst r))).
+
+  Definition digest_pieces (n_out : nat) (pieces : list (list N)) : res (list N) :=
+    bind (default (N.of_nat n_out)) (fun h => finish_pieces h n_out pieces).
 End Model.
